@@ -112,8 +112,21 @@ pub fn drive(
 ) {
     let args = parse_args();
     std::fs::create_dir_all(&args.out).unwrap();
+    install_panic_recorder();
     let inputs: Vec<(String, Value)> = match args.mode.as_str() {
-        "gen" => { let mut rng = Rng::new(args.seed); gen(&mut rng, &args.tier) }
+        "gen" => {
+            // a generator that consults the implementation (to build inputs around its behaviour) can panic in it
+            let mut rng = Rng::new(args.seed);
+            match std::panic::catch_unwind(std::panic::AssertUnwindSafe(|| gen(&mut rng, &args.tier))) {
+                Ok(v) => v,
+                Err(_) => {
+                    let (msg, at) = FIRST_PANIC.lock().unwrap_or_else(|e| e.into_inner()).take().unwrap_or_default();
+                    let out = CaseOut { obs: json!({"panic": msg, "at": at, "where": "generator"}), coq: "PANIC".into(), nontrivial: false };
+                    drive_finish(&args, vec![("generator.panic".into(), Value::Null)], |_| vec![out]);
+                    return
+                }
+            }
+        }
         "replay" => {
             let txt = std::fs::read_to_string(args.case.as_ref().expect("--case")).unwrap();
             let v: Value = serde_json::from_str(&txt).unwrap();
@@ -177,8 +190,21 @@ pub fn drive_par(
 ) {
     let args = parse_args();
     std::fs::create_dir_all(&args.out).unwrap();
+    install_panic_recorder();
     let inputs: Vec<(String, Value)> = match args.mode.as_str() {
-        "gen" => { let mut rng = Rng::new(args.seed); gen(&mut rng, &args.tier) }
+        "gen" => {
+            // a generator that consults the implementation (to build inputs around its behaviour) can panic in it
+            let mut rng = Rng::new(args.seed);
+            match std::panic::catch_unwind(std::panic::AssertUnwindSafe(|| gen(&mut rng, &args.tier))) {
+                Ok(v) => v,
+                Err(_) => {
+                    let (msg, at) = FIRST_PANIC.lock().unwrap_or_else(|e| e.into_inner()).take().unwrap_or_default();
+                    let out = CaseOut { obs: json!({"panic": msg, "at": at, "where": "generator"}), coq: "PANIC".into(), nontrivial: false };
+                    drive_finish(&args, vec![("generator.panic".into(), Value::Null)], |_| vec![out]);
+                    return
+                }
+            }
+        }
         "replay" => {
             let txt = std::fs::read_to_string(args.case.as_ref().expect("--case")).unwrap();
             let v: Value = serde_json::from_str(&txt).unwrap();
